@@ -59,6 +59,7 @@ func Gen(prop string, seed uint64, index int, tier string) *Case {
 		cfg := propCfg(prop)
 		if tier == "thorough" {
 			cfg.maxOps = cfg.maxOps * 5 / 2
+			c.Flags["tier-thorough"] = true
 		}
 		genSingle(c, r, cfg)
 	}
@@ -355,6 +356,20 @@ func (g *batchGen) ops(tag string, maxN int) []KV {
 
 func (g *batchGen) batch() *BatchSpec {
 	g.seq++
+	if g.kids && !AvoidTriggers["structuralOnlyBatch"] && g.r.Chance(0.08) {
+		// a purely structural batch: no key operation at any level
+		n1, n2 := pick(g.r, g.names), pick(g.r, g.names)
+		switch g.r.Intn(4) {
+		case 0:
+			return &BatchSpec{DelKids: []string{n1}}
+		case 1:
+			return &BatchSpec{Kids: map[string]*BatchSpec{n1: {DelKids: []string{n2}}}}
+		case 2:
+			return &BatchSpec{Kids: map[string]*BatchSpec{n1: {Kids: map[string]*BatchSpec{n2: {}}}}}
+		default:
+			return &BatchSpec{Kids: map[string]*BatchSpec{n1: {}}}
+		}
+	}
 	b := &BatchSpec{}
 	if !g.kids || g.r.Chance(0.6) {
 		b.Ops = g.ops("v", 5)
